@@ -39,6 +39,9 @@ structure Mon where
   expHandlers : List (Nat × List Reg) := []     -- per pending expect(): the bus's handler registry before the call
   expResolvedAt : List (Nat × Nat) := [] -- expect() calls: the time their future was resolved with a match
   expNested : List Nat := []            -- expect() calls resolved by an event whose activation is nested inside that of an earlier match
+  redone : List EId := []               -- events that were accepted by a bus again after their completion had been signalled
+  selAt : List ((BId × EId) × List HId) := []   -- per begun activation: the ordinary handlers registered for a matching
+                                        -- pattern at that moment (what "no handler is skipped" is about)
   scanning : Option IId := none         -- the instance whose await has just begun, or just finished an inline activation: it is
                                         -- running (not suspended) and about to scan the queues
   deriving Repr
@@ -126,6 +129,11 @@ end C14
     a later bus added results -/
 def f4Sig (w : World) (e : EId) : Bool :=
   (events w).any fun d => desc w d e && (w.ev d).signal && (w.ev d).path.length > 1 && !treeDone w d
+
+/-- redispatch-done: the client dispatched an already completed (signalled) event of the tree again; handlers that have no
+    result for it yet run and add results while the event stays signalled complete -/
+def redoneSig (w : World) (redone : List EId) (e : EId) : Bool :=
+  (events w).any fun d => desc w d e && redone.contains d && (w.ev d).signal && !treeDone w d
 
 /-- F1: the polling loop ran out while a run loop, blocked on the global lock, holds the awaited event or a descendant -/
 def f1Sig (w : World) (i : IId) (c : EId) : Bool :=
@@ -227,6 +235,7 @@ def Mon.step (m : Mon) (w : World) (l : Label) (w' : World) : Mon × List Vio :=
   let (m, vs) : Mon × List Vio := match l with
   | .dispatch p b e res =>
     let m := if res == .ok then { m with accepted := m.accepted ++ [(b, e)] } else m
+    let m := if res == .ok && (w.ev e).signal && !m.redone.contains e then { m with redone := m.redone ++ [e] } else m
     let isFwd := match p with | .inst i => (w.inst i).kind.isForward | _ => false
     let m := if isFwd && res != .ok then { m with fwdRejected := true } else m
     let m := if !isFwd && res == .ok then { m with entries := m.entries ++ [(e, b)] } else m
@@ -272,7 +281,9 @@ def Mon.step (m : Mon) (w : World) (l : Label) (w' : World) : Mon × List Vio :=
     let m := match p, pos with
       | .rl _, some n => { m with rlPos := (m.rlPos.filter (fun (x : BId × Nat) => x.1 != b)) ++ [(b, max n (top.getD 0))] }
       | _, _ => m
-    ({ m with begun := m.begun ++ [(b, e)],
+    let ordinary : List HId := ((matching (w.bus b) (w.ev e).etype).filter fun r =>
+      match r.kind with | .async | .sync => true | _ => false).map (·.hid)
+    ({ m with begun := m.begun ++ [(b, e)], selAt := m.selAt ++ [((b, e), ordinary)],
               expSince := m.expSince.map fun (x, l) =>
                 match w.waiter x with
                 | .expecting b' _ _ _ _ _ => if b' == b then (x, l ++ [e]) else (x, l)
@@ -363,10 +374,12 @@ def Mon.step (m : Mon) (w : World) (l : Label) (w' : World) : Mon × List Vio :=
           v "C04" "incomplete"
             ((if f1Sig w i c then ["F1"] else []) ++ (if parStealSig w i c then ["par-steal"] else []) ++
              (if (w.ev c).signal && f4Sig w c then ["F4"] else []) ++
+             (if (w.ev c).signal && redoneSig w m.redone c then ["redispatch-done"] else []) ++
              (if (w.ev c).signal then [] else hangSigs w m c))
             s!"instance {i}: awaited event {c} returned incomplete" else [])
   | .xAwaitEnd e =>
-    (m, if !treeDone w e then v "C03" "returnNotDone" (if f4Sig w e then ["F4"] else []) s!"event {e}" else [])
+    (m, if !treeDone w e then v "C03" "returnNotDone" ((if f4Sig w e then ["F4"] else []) ++
+          (if redoneSig w m.redone e then ["redispatch-done"] else [])) s!"event {e}" else [])
   | .readBus i got =>
     (m, if got != some (w.inst i).bus then
           v "C09" "eventBus"
@@ -471,6 +484,18 @@ def Mon.step (m : Mon) (w : World) (l : Label) (w' : World) : Mon × List Vio :=
     | _ => (m, [])
   | .walWrite _ b e ok =>
     (m, if ok && (w'.bus b).walLines.getLast? != some e then v "C17" "walLine" [] s!"bus {b} event {e}" else [])
+  -- the client registers / removes a handler while an expect() call is pending on that bus: the registry that call has to
+  -- leave behind changes accordingly
+  | .on b key k kind =>
+    ({ m with expHandlers := m.expHandlers.map fun (x, l) =>
+        match w.waiter x with
+        | .expecting b' _ _ _ _ _ => if b' == b then (x, l ++ [{ key := key, hid := k, kind := kind }]) else (x, l)
+        | _ => (x, l) }, [])
+  | .off b key k =>
+    ({ m with expHandlers := m.expHandlers.map fun (x, l) =>
+        match w.waiter x with
+        | .expecting b' _ _ _ _ _ => if b' == b then (x, l.eraseP fun r => r.key == key && r.hid == k) else (x, l)
+        | _ => (x, l) }, [])
   | _ => (m, [])
   -- C08: completion is stable (status and signal are functions of the results and of monotone flags,
   -- so "nothing changes" is "the result list is the one seen at first completion")
@@ -483,13 +508,15 @@ def Mon.step (m : Mon) (w : World) (l : Label) (w' : World) : Mon × List Vio :=
               -- bus adds results, or finishes results that were in progress when the await returned
               sigs := (if (w'.ev e).path.length > 1 &&
                          ((w'.ev e).results.any (fun r => !rs.any (fun x => x.bus == r.bus && x.hid == r.hid)) ||
-                          rs.any (fun x => !x.terminal)) then ["F4"] else []),
+                          rs.any (fun x => !x.terminal)) then ["F4"] else []) ++
+                      (if m.redone.contains e then ["redispatch-done"] else []),
               detail := s!"event {e} changed after it was complete" } : Vio)
   -- a changed event is watched again from its next completion on
   let snaps := snaps0.filter fun (e, rs) => (w'.ev e).results == rs
   -- observed complete: status completed with the completion signalled, or an await on it has just returned on the signal
   let awaited : Option EId := match l with
-    | .awaitEnd _ c => if (w.ev c).signal then some c else none
+    -- (the second disjunct cannot occur on a conforming history: an await that gives up has used up its polling passes)
+    | .awaitEnd i c => if (w.ev c).signal || (w.inst i).iters < w.cfg.maxPoll then some c else none
     | .xAwaitEnd e => some e
     | _ => none
   let fresh := (events w').filterMap fun e =>
@@ -569,7 +596,14 @@ def Mon.rest (m : Mon) (w : World) : List Vio :=
     let hs := hangSigs w m e
     let bs := busHangSigs w m b
     if stopRelated (hs ++ bs) then [] else
-    (if !C01.noSkip w b e then v "C01" "skipped" (hs ++ bs) s!"bus {b} event {e}" else []) ++
+    -- every ordinary handler that was registered for a matching pattern when an activation of (b, e) began has a terminal
+    -- result; an accepted event that was never begun is judged against the registry as it is now
+    (let begunSel := (m.selAt.filter (·.1 == (b, e))).flatMap (·.2)
+     -- (every accepted dispatch of (b, e) has led to an activation: otherwise the one that has not is judged as never begun)
+     let ok := if m.begun.count (b, e) ≥ m.accepted.count (b, e) then
+         begunSel.all fun k => match (w.ev e).getRes? b k with | some x => x.terminal | none => false
+       else C01.noSkip w b e
+     if !ok then v "C01" "skipped" (hs ++ bs) s!"bus {b} event {e}" else []) ++
     (if treeDone w e && !(w.ev e).signal then v "C03" "doneNotSignalled" hs s!"event {e}" else []) ++
     (if m.everTimeout && !((w.ev e).status == .completed && (w.ev e).signal) then
        v "C10" "notCompletedAfterTimeout" hs s!"event {e}" else []) ++
